@@ -133,6 +133,14 @@ func TestC08(t *testing.T) {
 				}
 			},
 		}
+		if os.Getenv("VERIF_C08_DEBUG") != "" {
+			c08Digests = map[int64][]string{}
+			opts.AfterCommit = func(c *Case, b *Block, br *BlockResult) error {
+				d, _ := semanticDigest(c.Sim)
+				c08Digests[br.Height] = d
+				return nil
+			}
+		}
 		c, err := RunPrimary("C08", src, opts)
 		verifhook.OnDurable = nil
 		out := &Outcome{Case: c}
@@ -198,6 +206,8 @@ func TestC08(t *testing.T) {
 	})
 }
 
+var c08Digests map[int64][]string
+
 // examineCrashPoint opens a new node on the snapshot and checks the recovery contract.
 // It returns ("","") when the contract holds, else a failure mode and a description.
 func examineCrashPoint(c *Case, cp *crashPoint) (string, string) {
@@ -207,6 +217,13 @@ func examineCrashPoint(c *Case, cp *crashPoint) (string, string) {
 		return "node_does_not_start", fmt.Sprintf("node does not start: %v", perr)
 	}
 	s.ChainID = c.Hist.Genesis.ChainID
+	if c08Digests != nil && info.LastBlockHeight >= 1 {
+		if d, perr := semanticDigest(s); perr == nil {
+			if df := diffLines(c08Digests[info.LastBlockHeight], d); df != "" {
+				fmt.Printf("C08DEBUG crash %s block %d: state after reopen at height %d differs from the committed state (A=reference):%s\n", cp.Label, cp.Block+1, info.LastBlockHeight, df)
+			}
+		}
+	}
 	bi := cp.Block
 	hPrev := int64(bi) // height before the interrupted block
 	var hashPrev []byte
